@@ -21,7 +21,12 @@ SoftDescs == Flatten2([i \in DOMAIN GridSeq |->
    [d \in 1..Len(GridSeq[i]) |-> <<"softmax", GridSeq[i], d - 1, FALSE>>]
    \o (IF Len(GridSeq[i]) >= 1 THEN << <<"softmax", GridSeq[i], 0, TRUE>> >> ELSE <<>>)
    \o << <<"softmax-bad", GridSeq[i], Len(GridSeq[i])>>, <<"softmax-bad", GridSeq[i], Len(GridSeq[i]) + 1>>, <<"softmax-bad", GridSeq[i], -1>> >>])
-Descs == MyCases(ElemDescs \o SoftDescs)
+(* the SAME activation object applied to several inputs of different shapes in turn, and to the first one again: *)
+(* an activation is a function of its input only (no state may be carried from one call to the next)            *)
+ReuseActs == <<"relu", "leakyrelu", "sigmoid", "tanhact", "softmax">>
+ReuseShapes == <<<<<<2, 3>>, <<3, 2>>>>, <<<<2, 2>>, <<2, 2, 3>>>>, <<<<4>>, <<1, 4>>>>, <<<<2, 1, 2>>, <<2, 3, 2>>>>>>
+ReuseDescs == Flatten2([a \in DOMAIN ReuseActs |-> [r \in DOMAIN ReuseShapes |-> <<"reuse", ReuseActs[a], ReuseShapes[r][1], ReuseShapes[r][2]>>]])
+Descs == MyCases(ElemDescs \o SoftDescs \o ReuseDescs)
 
 D == "big,any,zero"
 Build(d) ==
@@ -33,6 +38,12 @@ Build(d) ==
          MkCase("c14", d[1], <<In("x", d[2], FALSE)>>, <<D>>,
                 <<Ins("softmax", [dim |-> d[3], nilconf |-> d[4]], <<1>>), Ins("sumalong", [dim |-> d[3]], <<2>>)>>, <<2, 3>>, 0, TRUE)
          @@ [props |-> <<"nonneg", "finite">>]
+    [] d[1] = "reuse" ->
+         LET par == CASE d[2] = "leakyrelu" -> [k |-> Half, nilconf |-> FALSE, inst |-> 1]
+                      [] d[2] = "softmax" -> [dim |-> 0, nilconf |-> FALSE, inst |-> 1]
+                      [] OTHER -> [inst |-> 1, dim |-> 0]
+         IN MkCase("c14", d[2] \o "-reused", <<In("x", d[3], FALSE), In("y", d[4], FALSE)>>, <<D, D>>,
+                   <<Ins(d[2], par, <<1>>), Ins(d[2], par, <<2>>), Ins(d[2], par, <<1>>), Ins(d[2], par, <<4>>)>>, <<3, 4, 5, 6>>, 0, TRUE)
     [] d[1] = "softmax-bad" ->
          MkCase("c14", d[1], <<In("x", d[2], FALSE)>>, <<"any">>, <<Ins("softmax", [dim |-> d[3], nilconf |-> FALSE], <<1>>)>>, <<>>, 0, TRUE)
 
